@@ -259,6 +259,21 @@ func (e *Engine) loadContractFile(path string) error {
 			e.SpecFns[sf.Name] = sf
 		case "axiom":
 			e.Axioms = append(e.Axioms, rest)
+		case "cursor":
+			// cursor T.path: the integer field that is the read cursor of T (cost mode: peak() is the largest value
+			// it took during a call, i.e. the furthest byte looked at)
+			i := strings.Index(rest, ".")
+			if i < 0 {
+				return fmt.Errorf("bad cursor: %s", l)
+			}
+			t, err := e.resolveType(pkgPath, rest[:i])
+			if err != nil {
+				return err
+			}
+			if e.Cursors == nil {
+				e.Cursors = map[int]string{}
+			}
+			e.Cursors[typeID(t)] = strings.TrimSpace(rest[i+1:])
 		case "rg":
 			// rg T.f guarantee <expr over old,new> rely <expr over old,new>
 			m := regexp.MustCompile(`^(\S+)\s+guarantee\s+(.*?)\s+rely\s+(.*)$`).FindStringSubmatch(rest)
@@ -345,12 +360,32 @@ func (e *Engine) loadContractFile(path string) error {
 				return fmt.Errorf("inherit outside an explicit func contract: %s", l)
 			}
 			found := false
+			skipTag := ""
+			if strings.HasPrefix(strings.TrimSpace(rest), "-") {
+				skipTag = strings.TrimPrefix(strings.TrimSpace(rest), "-") // inherit -TAG: all but the clauses tagged TAG
+			}
 			for _, d := range e.Defaults {
 				if strings.HasPrefix(cur.Key, strings.TrimSuffix(d.Key, "*")) {
 					cur.Requires = append(cur.Requires, d.Requires...)
 					for _, en := range d.Ensures {
+						if skipTag != "" && en.Tag == skipTag {
+							continue
+						}
 						en.Inherited = true
 						cur.Ensures = append(cur.Ensures, en)
+					}
+					if w := d.Loops[-1]; w != nil {
+						ls := cur.Loops[-1]
+						if ls == nil {
+							ls = &LoopSpec{}
+							cur.Loops[-1] = ls
+						}
+						for _, inv := range w.Invariants {
+							if skipTag != "" && inv.Tag == skipTag {
+								continue
+							}
+							ls.Invariants = append(ls.Invariants, inv)
+						}
 					}
 					found = true
 					break
@@ -375,11 +410,14 @@ func (e *Engine) loadContractFile(path string) error {
 			if cur == nil {
 				return fmt.Errorf("clause outside func: %s", l)
 			}
-			m := regexp.MustCompile(`^(\d+)\s+(invariant|decreases)\s+(.*)$`).FindStringSubmatch(rest)
+			m := regexp.MustCompile(`^(\d+|\*)\s+(invariant|decreases)\s+(.*)$`).FindStringSubmatch(rest)
 			if m == nil {
 				return fmt.Errorf("bad loop clause: %s", l)
 			}
 			n, _ := strconv.Atoi(m[1])
+			if m[1] == "*" {
+				n = -1 // candidate invariant for every loop of the function (kept only where it is inductive)
+			}
 			ls := cur.Loops[n]
 			if ls == nil {
 				ls = &LoopSpec{}
@@ -578,6 +616,7 @@ type SV struct {
 }
 
 type SpecEnv struct {
+	peakOverride string
 	fr    *Frame
 	fn    *ssa.Function // function whose package gives the scope
 	names map[string]SV
@@ -1333,6 +1372,57 @@ func init() {
 				return SV{}, err
 			}
 			return intSV(a.V.C[0]), nil
+		},
+		// sumlen1(lines [, k]): sum over the first k (default: all) strings of the slice of (length + 1)
+		"sumlen1": func(env *SpecEnv, x *ast.CallExpr) (SV, error) {
+			a, err := env.eval(x.Args[0])
+			if err != nil {
+				return SV{}, err
+			}
+			sl, ok := underlyingOrNil(a.T).(*types.Slice)
+			if !ok || !isStringT(sl.Elem()) {
+				return SV{}, fmt.Errorf("sumlen1() needs a []string")
+			}
+			lf := layoutOf(sl.Elem()).leaves[0]
+			famLeafSort[lf.Arr] = lf.Sort
+			k := a.V.C[1]
+			if len(x.Args) > 1 {
+				if k, err = env.evalInt(x.Args[1]); err != nil {
+					return SV{}, err
+				}
+			}
+			return intSV(fmt.Sprintf("(sumlen1 %s %s %s)", env.fr.q.get(env.st, lf.Arr), a.V.C[0], k)), nil
+		},
+		// succeeded(): the error result is nil (true for a function without an error result)
+		"succeeded": func(env *SpecEnv, x *ast.CallExpr) (SV, error) {
+			if sv, ok := env.names["err"]; ok && len(sv.V.C) >= 1 {
+				return SV{T: types.Typ[types.Bool], V: Val{C: []string{"(= " + sv.V.C[0] + " 0)"}}}, nil
+			}
+			return SV{T: types.Typ[types.Bool], V: Val{C: []string{"true"}}}, nil
+		},
+		// peak(): the largest value the cursor of the receiver took since function entry (in a callee's contract at a
+		// call site: during that call); look(): bytes callees looked at beyond where they stopped, summed since entry
+		"peak": func(env *SpecEnv, x *ast.CallExpr) (SV, error) {
+			if env.peakOverride != "" {
+				return intSV(env.peakOverride), nil
+			}
+			if env.fr.q.opts == nil || !env.fr.q.opts.Cost || env.fr.q.peakFam == "" {
+				return SV{}, fmt.Errorf("peak() needs cost mode and a receiver with a declared cursor")
+			}
+			return intSV(env.fr.q.get(env.st, "$hw")), nil
+		},
+		"look": func(env *SpecEnv, x *ast.CallExpr) (SV, error) {
+			if env.fr.q.opts == nil || !env.fr.q.opts.Cost || env.fr.q.peakFam == "" {
+				return SV{}, fmt.Errorf("look() needs cost mode and a receiver with a declared cursor")
+			}
+			return intSV("(- " + env.fr.q.get(env.st, "$look") + " " + env.fr.q.get(env.old, "$look") + ")"), nil
+		},
+		// cost(): abstract steps (loop iterations, plus the assumed cost of library calls) spent since function entry
+		"cost": func(env *SpecEnv, x *ast.CallExpr) (SV, error) {
+			if env.fr.q.opts == nil || !env.fr.q.opts.Cost {
+				return SV{}, fmt.Errorf("cost() outside cost mode")
+			}
+			return intSV("(- " + env.fr.q.get(env.st, "$ticks") + " " + env.fr.q.get(env.old, "$ticks") + ")"), nil
 		},
 		"max0": func(env *SpecEnv, x *ast.CallExpr) (SV, error) {
 			a, err := env.evalInt(x.Args[0])
